@@ -13,9 +13,19 @@
 
    The reported model run (c07_run) is the pointer-level one (C07_Dll.v);
    c07_agree compares the implementation with it AND (histories of at most
-   2000 calls) with Layer 1. *)
+   2000 calls) with Layer 1.
 
-From Gogu Require Import Base C07_Model C07_Dll.
+   Irreflexive keys (C07_NaN.v).  The harness runs the cases whose nkeys word is
+   9, 10 or 11 on key types that admit keys with k != k — LRUCache[float64,int],
+   LRUCache[any,int], LRUCache[struct{K int; F float64},int] — and every key code
+   k <= -1000001 of such a case is a NaN (float64 NaN, or an interface / struct
+   holding one; the code keeps the NaN's payload apart, -1000001 - payload).  For
+   these cases the model is dn_step with irr k := k <= -1000001 and the property is
+   judged against the reference machine specn_step with the same irr.  For every
+   other nkeys word nothing changes (there -1000001 and below are ordinary
+   integers, e.g. the "far" key layout). *)
+
+From Gogu Require Import Base C07_Model C07_Dll C07_NaN.
 Local Open Scope Z_scope.
 
 Definition b01 (b : bool) : Z := if b then 1 else 0.
@@ -112,8 +122,20 @@ Definition run_with {St : Type} (mk : Z -> res St) (step : op -> St -> St * out)
   | _ => wire_error
   end.
 
-(* the model: the pointer-level transcription *)
-Definition c07_run (w : list Z) : list Z := run_with d_new d_step d_count w.
+(* cases with irreflexive keys: selected by the nkeys word *)
+Definition c07_nan_top : Z := -1000001.
+Definition c07_irr : Z -> bool := irr_below c07_nan_top.
+Definition c07_nan_case (w : list Z) : bool :=
+  match w with
+  | _ :: nk :: _ => (9 <=? nk) && (nk <=? 11)
+  | _ => false
+  end.
+
+(* the model: the pointer-level transcription (over the Go map with
+   irreflexive keys for the cases that have them) *)
+Definition c07_run (w : list Z) : list Z :=
+  if c07_nan_case w then run_with d_new (dn_step c07_irr) d_count w
+  else run_with d_new d_step d_count w.
 
 (* Layer 1 and the reference machine on the same wire (used by c07_holds and by
    the examples of C07_Props.v; C07_Props proves all three coincide) *)
@@ -139,9 +161,18 @@ Definition c07_run_spec (w : list Z) : list Z :=
    judged against the reference machine by c07_holds, as everywhere). *)
 Definition c07_l1_max_words : nat := (2 + 3 * 2000)%nat.   (* cap, nkeys, 2000 x [code; k; v] *)
 Definition c07_l1_compared (w : list Z) : bool := Nat.leb (length w) c07_l1_max_words.
+(* the reference machine with irreflexive keys on the same wire *)
+Definition c07_run_specn (w : list Z) : list Z :=
+  run_with spec_new
+    (fun o s => let (l', r) := specn_step c07_irr (fst s) o (snd s) in ((fst s, l'), r))
+    (fun s => spec_count (snd s)) w.
+
+(* (Layer 1 has no irreflexive-key version: those cases are compared with the
+   pointer-level model only.) *)
 Definition c07_agree (w obs : list Z) : bool :=
   if zlist_eqb obs (c07_run w)
-  then (if c07_l1_compared w then zlist_eqb obs (c07_run_l1 w) else true)
+  then (if c07_nan_case w then true
+        else if c07_l1_compared w then zlist_eqb obs (c07_run_l1 w) else true)
   else false.
 
 (* The property is judged against the SPECIFICATION machine (a recency list
@@ -150,4 +181,5 @@ Definition c07_agree (w obs : list Z) : bool :=
    reference machine is the only one that [conforms] to its own ledger), so on
    one observation the property holds iff the observation is the reference
    machine's. *)
-Definition c07_holds (w obs : list Z) : bool := zlist_eqb obs (c07_run_spec w).
+Definition c07_holds (w obs : list Z) : bool :=
+  zlist_eqb obs (if c07_nan_case w then c07_run_specn w else c07_run_spec w).
